@@ -62,6 +62,10 @@ def run(v, tier, seed, name="replay"):
     # crash of a node with several messages and timers in flight from/to it: everything the crash logs and cancels is
     # collected from hash containers and queues
     sim_scen += [(f"cb{i}", sim_suite.gen_crash_burst(rng)) for i in range(nsim // 2)]
+    # Python processes that draw from `random` (seeded by PyProcessFactory::build) in the constructor and in the handlers and
+    # report the values: "the random values handed to processes"
+    from . import py_suite
+    sim_scen += [(f"pr{i}", py_suite.gen_py_sim(rng, "pyr")) for i in range(max(20, nsim // 10))]
     nviol = 0
     nontriv = set()
     evals = 0
